@@ -282,6 +282,17 @@ theorem step_prop {s : St} {k : Nat} {x : List String} {p : PKind} {B : List Bra
     step s ⟨k, x, .prop p⟩ = .ok ({ s with state := B }, if falseCase B then [] else [.prop p]) := by
   simp [step, hB]
 
+theorem step_unit {s : St} {k : Nat} {x : List String} {b : Bool} {B : List Branch}
+    (hB : closeGE k s.state = B) :
+    step s ⟨k, x, .unit b⟩ = .ok ({ s with state := B }, if falseCase B || !b then [] else [.fail]) := by
+  simp [step, hB]
+
+theorem step_imp {s : St} {k : Nat} {x : List String} {nd : Option String} {B : List Branch}
+    {P : List (Nat × List Comp)} (hB : closeGE k s.state = B) (hP : popGE k s.parents = P) :
+    step s ⟨k, x, .imp nd⟩ = .ok ({ s with parents := (k, [.nm "{import}"]) :: P, state := B },
+      if falseCase B then [] else [.imp (cleanName (fullName P)) x nd]) := by
+  simp [step, register, hB, hP]
+
 /-- `@case` opening a new block: nothing with this indent and path is open. -/
 theorem step_open {s : St} {k : Nat} {x : List String} {c : Bool} {B : List Branch} {P : List (Nat × List Comp)}
     (hB : closeFor k (fullName P ++ nms x) s.state = (B, false)) (hB' : closeGE k s.state = B)
